@@ -227,7 +227,7 @@ Definition decode (op : Z) : option instr :=
   | 65 => Some (env0 (fun e _ _ => e_coinbase e))
   | 66 => Some (env0 (fun e _ _ => e_time e))
   | 67 => Some (env0 (fun e _ _ => e_number e))
-  | 69 => Some (env0 (fun e _ _ => e_gaslimit e))
+  | 68 => Some (env0 (fun e _ _ => e_gaslimit e))   (* KVM numbers GASLIMIT 0x44; 0x45 is undefined *)
   | 70 => Some (env0 (fun e _ _ => e_chainid e))
   | 71 => Some (env0 (fun _ f w => balance w (f_self f)))
   | 80 => Some IPop
